@@ -381,6 +381,59 @@ theorem abandoned_stream_activity_inert (cfg : Cfg) (hc : cfg.allChecked = true)
   · intro hs hl
     simp [streamEvent, hs, hl]
 
+/-- ★ `(ev/read s n buf timeout)`, `(ev/write s data timeout)`, `(net/accept s timeout)`: two wake-up sources, the stream listener
+and the timeout timer (`janet_addtimeout`), both registered in the same generation.  Whichever fires first disarms the other:
+(1) the stream completes first — the timer of that wait, found later in the timer phase, does nothing;
+(2) the timeout fires first and its task runs — the fiber no longer listens, and any later readiness of the stream does nothing. -/
+theorem timed_stream_wait_sources_disarm_each_other (cfg : Cfg) (hc : cfg.allChecked = true) (w : World) (f s : Nat) (r : Bool)
+    (tm : Timer) (hk : tm.kind = .timeout) (hf : tm.fiber = f) (hlive : tm.schedId = (w.fibers f).schedId)
+    (hl : (w.fibers f).listener = some (s, r))
+    (hs : (if r then (w.streams s).readFiber else (w.streams s).writeFiber) = some f) (hnc : (w.fibers f).canceled = false) :
+    (∀ v e, fireTimer cfg (streamEvent cfg w s r v e) tm = streamEvent cfg w s r v e) ∧
+    (w.queue = [] →
+      ((runTask cfg (fireTimer cfg w tm)).fibers f).listener = none ∧
+      ∀ s' r' v e, (if r' then ((runTask cfg (fireTimer cfg w tm)).streams s').readFiber
+                     else ((runTask cfg (fireTimer cfg w tm)).streams s').writeFiber) = some f →
+        streamEvent cfg (runTask cfg (fireTimer cfg w tm)) s' r' v e = runTask cfg (fireTimer cfg w tm)) := by
+  have hb : cfg.scheduleBumps = true := (allChecked_fields hc).2.2.2.2.2.2.2.2.1
+  have htc : cfg.timerCheck = true := (allChecked_fields hc).2.1
+  refine ⟨?_, ?_⟩
+  · intro v e
+    apply (stale_inert cfg hc _).2.2.2.1 tm (by intro b hb'; rw [hk] at hb'; cases hb')
+    -- after the completion the fiber's generation has moved on
+    have hse : streamEvent cfg w s r v e =
+        asyncEnd (schedule cfg w f v e (w.fibers f).schedId w.now (.stream s) (w.fibers f).listenEpoch) f := by
+      simp [streamEvent, hs, hl]
+    rw [hse, hf]
+    have hsid := (asyncEnd_frame (schedule cfg w f v e (w.fibers f).schedId w.now (.stream s) (w.fibers f).listenEpoch) f).2.2.2.2 f
+    rcases schedule_bumps cfg hb w f v e (w.fibers f).schedId w.now (.stream s) (w.fibers f).listenEpoch with heq | ⟨hbump, -⟩
+    · -- the schedule cannot have been swallowed: the fiber is not flagged CANCELED
+      exfalso
+      have : (schedule cfg w f v e (w.fibers f).schedId w.now (.stream s) (w.fibers f).listenEpoch).queue ≠ w.queue := by
+        unfold schedule
+        simp [hnc]
+      exact this (by rw [heq])
+    · simp only [live, hsid, hbump, hlive]
+      simp
+  · intro hq
+    have hft : fireTimer cfg w tm = schedule cfg w f (.err 0) true tm.schedId tm.when .timeout tm.epoch := by
+      unfold fireTimer
+      rw [hk]
+      simp [htc, live, hf, hlive]
+    rcases schedule_bumps cfg hb w f (.err 0) true tm.schedId tm.when .timeout tm.epoch with heq | ⟨hbump, hqq⟩
+    · exfalso
+      have : (schedule cfg w f (.err 0) true tm.schedId tm.when .timeout tm.epoch).queue ≠ w.queue := by
+        unfold schedule
+        simp [hnc]
+      exact this (by rw [heq])
+    · have hdet := listener_detached_on_resume cfg hc (fireTimer cfg w tm)
+        { fiber := f, value := .err 0, isErr := true, expected := (w.fibers f).schedId + 1, regGen := tm.schedId,
+          notBefore := tm.when, src := .timeout, regEpoch := tm.epoch } []
+        (by rw [hft, hqq, hq]; rfl) (by rw [hft]; exact hbump.symm)
+      refine ⟨hdet, ?_⟩
+      intro s' r' v e hs'
+      exact (stale_inert cfg hc _).2.2.2.2.2 s' r' v e f hs' hdet
+
 /-- a resume detaches the listener whatever the depth of the child-fiber chain below the task (try / defer / coro / with-deadline
 bodies that stay suspended across the wait) -/
 theorem listener_detached_on_resume_any_depth (cfg : Cfg) (hc : cfg.allChecked = true) (w : World) (t : Task) (q : List Task) (d : Nat)
